@@ -1,8 +1,8 @@
 SPECIFICATION SimSpec
 CONSTANTS
   Keys = {"a", "b", "c", "d", "e", "f", "g"}
-  Caps = {1, 2, 3, 4, 5, 6}
-  MaxIncr = 40
-  MaxCtl = 3
+  Caps = {2, 3, 4, 5}
+  MaxIncr = 60
+  MaxCtl = 2
 INVARIANTS StructOK LBounded LExactSinceAdmission LEvictsMinimum
 CHECK_DEADLOCK FALSE
